@@ -301,7 +301,21 @@ impl Scenario for Layers {
                 15 => Op::Corrupt { k, layer: *rng.pick(&disk_layers.iter().copied().chain(std::iter::once(1)).collect::<Vec<_>>()), how: rng.below(4) as u8 },
                 _ => Op::Delete { k, layer: *rng.pick(&disk_layers.iter().copied().chain(std::iter::once(1)).collect::<Vec<_>>()) },
             };
+            // faults are placed inside interesting activity: a corrupted or deleted file is often
+            // followed by a promotion of that key and/or a validating read of it
+            let follow = match &op {
+                Op::Corrupt { k, layer, .. } | Op::Delete { k, layer } => Some((*k, *layer)),
+                _ => None,
+            };
             ops.push(op);
+            if let Some((k, layer)) = follow {
+                if layer > 0 && rng.chance(55, 100) {
+                    ops.push(Op::Promote { k, from: layer, to: rng.usize_below(layer) });
+                }
+                if rng.chance(65, 100) {
+                    ops.push(if rng.chance(70, 100) { Op::GetValidated(k) } else { Op::Get(k) });
+                }
+            }
         }
         Case { layers, strategy, hooks, nkeys, ops }
     }
